@@ -188,6 +188,7 @@ type fakeInstance struct {
 	log []string
 
 	stepDelay int64 // ns, atomic
+	started   int64 // steps (and terminate signals) begun, atomic
 	performed map[string]int
 }
 
@@ -207,6 +208,7 @@ func (f *fakeInstance) ShutdownLocalConf() { f.step("localconf") }
 
 // step takes a moment (real steps do: they close listeners and wait) and is logged when it has been performed.
 func (f *fakeInstance) step(name string) {
+	atomic.AddInt64(&f.started, 1)
 	if d := time.Duration(atomic.LoadInt64(&f.stepDelay)); d > 0 {
 		time.Sleep(d)
 	}
@@ -238,6 +240,7 @@ func c17Sequence(r *ev.Run) {
 	rnd := rand.New(rand.NewSource(r.Seed + 17))
 	inst := &fakeInstance{id: 700000 + os.Getpid()%100000}
 	hotrestart.VerifSetKill(func(pid int, sig int) error {
+		atomic.AddInt64(&inst.started, 1)
 		inst.add(fmt.Sprintf("SIGNAL(%d)", sig))
 		return nil
 	})
@@ -364,6 +367,68 @@ func c17Sequence(r *ev.Run) {
 		r.Case(fmt.Sprintf("seq/len%d/%v", min(len(seq), 5), strings.Trim(fmt.Sprint(seq[:min(len(seq), 3)]), "[]")))
 	}
 	r.Count("sequences", int64(len(seqs)))
+	// (1b) an impatient child: the next request is sent while the old process is still busy with the
+	// previous step (steps take 30 ms here), without waiting for its reply. Steps and replies must still come in the requested order.
+	atomic.StoreInt64(&inst.stepDelay, int64(30*time.Millisecond))
+	known := []int{mtAdminReq, mtLocalConfReq, mtDrainReq, mtTerminateReq}
+	var overlapped [][]int
+	for _, a := range known {
+		for _, b := range known {
+			// (two requests only: a third would share a read with the second, and the channel's frame model - the one the
+			// property is stated in - is one frame per read)
+			overlapped = append(overlapped, []int{a, b})
+		}
+	}
+	for _, seq := range overlapped {
+		if r.Violations() >= 5 {
+			break
+		}
+		c, err := dial()
+		if err != nil {
+			r.Violation("C17:later-child-cannot-connect", "a new child could not connect to the hand-over socket: "+err.Error(), nil)
+			return
+		}
+		inst.take()
+		startedBefore := int64(0)
+		for i, t := range seq {
+			if i > 0 {
+				// the old process has taken the previous frame off the socket and is inside the step: the next frame cannot
+				// share a read with it, however slow this machine is
+				for w := 0; w < 2000 && atomic.LoadInt64(&inst.started) == startedBefore; w++ {
+					time.Sleep(time.Millisecond)
+				}
+				time.Sleep(2 * time.Millisecond)
+			}
+			startedBefore = atomic.LoadInt64(&inst.started)
+			hotrestart.VerifSendMessage(c, uint8(t), []byte("{}"))
+		}
+		// the replies may reach this side in one read (the second step can be instantaneous): split them by their headers here
+		var replies []int
+		var raw []byte
+		buf := make([]byte, 8192)
+		c.SetReadDeadline(time.Now().Add(3 * time.Second))
+		for len(replies) < len(seq) {
+			for len(raw) >= 3 && len(raw) >= 3+int(raw[1])<<8+int(raw[2]) {
+				replies = append(replies, int(raw[0]))
+				raw = raw[3+int(raw[1])<<8+int(raw[2]):]
+			}
+			if len(replies) >= len(seq) {
+				break
+			}
+			n, err := c.Read(buf)
+			if err != nil {
+				replies = append(replies, -1)
+				break
+			}
+			raw = append(raw, buf[:n]...)
+		}
+		time.Sleep(2 * time.Millisecond)
+		judge(seq, replies, inst.take(), "next request sent while the previous step is running, before its reply")
+		c.Close()
+		r.Count("overlapped_sequences", 1)
+		r.Case(fmt.Sprintf("overlapped/len%d/%v", len(seq), strings.Trim(fmt.Sprint(seq), "[]")))
+	}
+	atomic.StoreInt64(&inst.stepDelay, int64(2*time.Millisecond))
 	r.Sample(map[string]interface{}{"requests": []int{mtAdminReq, mtLocalConfReq, mtDrainReq, mtTerminateReq}, "expected_replies": []int{2, 4, 6, 8}, "expected_calls": []string{"admin", "localconf", "drain", "SIGNAL(15)"}})
 
 	// (2) a child that disappears at every point does not prevent a later child from completing the hand-over
